@@ -193,40 +193,47 @@ class Unit:
             ctx.checks.append((label, "sat", 0.0, K.model_values(m, ctx.inputs)))
 
     def validate_witness(self, ctx, S, args, out, state):
-        """Run the unpatched code on a model of this path and compare with the symbolic outcome."""
+        """Run the unpatched code on a model of this path and compare with the symbolic outcome.
+        A mismatch must repeat on a second, different model of the same path to count as an encoding
+        failure (a single mismatch can be a float-rounding artifact at a boundary the solver likes to pick)."""
         cmp = getattr(self, "compare", None)
         if cmp is None:
             state["witness_skipped"] += 1
             return
         extra = list(self.witness_constraints(ctx))
         block = []
-        for _ in range(3):
+        failures = []
+        for attempt in range(4):
             values = ctx.model_of_pc(*(extra + block))
             if values is None:
-                state["witness_skipped"] += 1
-                return
+                break
+            block.append(z3.Or([c != _val(values[n], c) for n, c in ctx.inputs.items()]) if ctx.inputs else z3.BoolVal(False))
             try:
                 CS, cargs, cout = self.concrete(values)
                 # the floats actually used may differ from the model rationals: re-check the path condition
                 ok = all(bool(K.evalz(p, CS.env, CS.ufs)) for p in ctx.pc)
             except (PreconditionFailed, KeyError, ZeroDivisionError):
                 ok = False
-            if ok:
+            if not ok:
+                continue
+            try:
+                with inject(self.patches()):
+                    problems = cmp(S, args, out, CS, cargs, cout)
+            except (KeyError, ZeroDivisionError) as e:
+                problems = [f"comparison failed: {e!r}"]
+            if not problems:
+                state["witness_ok"] += 1
+                if failures:
+                    state.setdefault("witness_retried", []).append(failures[0])
+                return
+            failures.append({"unit": self.name, "values": jsonable(values), "problems": problems[:5],
+                             "decisions": [t[0] for t in ctx.trace]})
+            if len(failures) >= 2:
                 break
-            block.append(z3.Or([c != _val(values[n], c) for n, c in ctx.inputs.items()]) if ctx.inputs else z3.BoolVal(False))
+        if len(failures) >= 2:
+            state["witness_failed"].append(failures[0])
         else:
             state["witness_skipped"] += 1
-            return
-        try:
-            with inject(self.patches()):
-                problems = cmp(S, args, out, CS, cargs, cout)
-        except (KeyError, ZeroDivisionError) as e:
-            problems = [f"comparison failed: {e!r}"]
-        if problems:
-            state["witness_failed"].append({"unit": self.name, "values": jsonable(values), "problems": problems[:5],
-                                            "decisions": [t[0] for t in ctx.trace]})
-        else:
-            state["witness_ok"] += 1
 
 
 def amplify(e, q=Fraction(1, 4)):
